@@ -136,6 +136,10 @@ type _refHolder struct {
 	destinations []reflect.Value
 
 	value reflect.Value
+
+	// complete is set once the list has been read entirely: a later ref to it
+	// can be bound at once instead of waiting for a notify that already happened
+	complete bool
 }
 
 var _refHolderType = reflect.TypeOf(_refHolder{})
@@ -157,8 +161,11 @@ func (h *_refHolder) notify() {
 
 // add destination
 func (h *_refHolder) add(dest reflect.Value) {
+	if h.complete {
+		SetValue(dest, h.value)
+		return
+	}
 	h.destinations = append(h.destinations, dest)
-	// SetValue(dest, h.value)
 }
 
 func (d *Decoder) addDecoderRef(v reflect.Value) *_refHolder {
